@@ -85,6 +85,65 @@ theorem delete_item_gone_nothing_else (cfg : Cfg) (rights : Rights) (user : Stri
     · intro y hy; exact item_del_other c x y hy
     · rw [← hp]; exact hq
 
+/-- **an acknowledged MOVE never replaces an object by one with another UID, and never without `Overwrite: T`**
+    (RFC 4791 5.3.2.1 no-uid-conflict): when the destination name holds an object, the moved object has the same UID,
+    the client asked for the overwrite, and the update is the move of exactly the source object to exactly that name -/
+theorem move_acknowledged (cfg : Cfg) (rights : Rights) (user : String) (s : Store) (src dst : Path) (ow : Bool)
+    (resp : Resp) (u : Update) (h : moveU cfg rights user s src dst ow = (resp, some u)) :
+    ∃ parent c x it, resolve s src = .item parent c x it ∧
+      u = .moveItem parent x dst.dropLast (dst.getLast?.getD "") it ∧
+      (∀ dp dc dx old, resolve s dst = .item dp dc dx old → it.uid = old.uid ∧ ow = true ∧ resp.status = 204) ∧
+      (resolve s dst = .absent → resp.status = 201) := by
+  unfold moveU at h
+  split at h
+  · simp at h
+  split at h
+  · simp at h
+  split at h
+  · simp at h
+  · split at h <;> (simp only at h; split at h <;> simp at h)
+  · rename_i parent c x it hsrc
+    split at h
+    · simp at h
+    refine ⟨parent, c, x, it, hsrc, ?_⟩
+    cases hd : resolve s dst with
+    | coll p c' => rw [hd] at h; simp at h
+    | absent =>
+      rw [hd] at h
+      simp only at h
+      split at h
+      · repeat' split at h
+        all_goals simp at h
+      · split at h
+        · simp at h
+        simp only [Option.isSome_none, Bool.false_and, Bool.false_eq_true, if_false] at h
+        split at h
+        · simp at h
+        simp only [Prod.mk.injEq, Option.some.injEq] at h
+        refine ⟨h.2.symm, ?_, ?_⟩
+        · intro dp dc dx old hx; cases hx
+        · intro _; rw [← h.1]
+    | item dp dc dx old =>
+      rw [hd] at h
+      simp only at h
+      split at h
+      · repeat' split at h
+        all_goals simp at h
+      · split at h
+        · simp at h
+        simp only [Option.isSome_some, Bool.true_and] at h
+        split at h
+        · simp at h
+        split at h
+        · simp at h
+        simp only [Prod.mk.injEq, Option.some.injEq] at h
+        refine ⟨h.2.symm, ?_, ?_⟩
+        · intro dp' dc' dx' old' hx
+          cases hx
+          rename_i hc how
+          refine ⟨by simpa using how, by simpa using hc, by rw [← h.1]; simp⟩
+        · intro hx; cases hx
+
 /-- a refused or failed request is the identity on the store (with C15's `error_is_identity`) and reads never
     change it: `handle` returns the store it was given whenever the handler decides on no update -/
 theorem no_update_no_change (cfg : Cfg) (rights : Rights) (user : String) (s : Store) (r : Req)
